@@ -37,6 +37,23 @@ def dotted(rid):
     return mod + '.' + name
 
 
+def spellings(rid):
+    """Every dotted path under which the tool's `-r` can reach this very class object: the canonical one first, then every
+    other `module.attribute` inside the mistletoe package whose value IS the class (old aliases such as HTMLRenderer,
+    re-exports such as mistletoe.HtmlRenderer, names imported into other modules). Read from the tree under test, sorted."""
+    cls = W.renderer_class(rid)
+    canon = dotted(rid)
+    found = set()
+    for m, mod in list(sys.modules.items()):
+        if mod is None or not (m == 'mistletoe' or m.startswith('mistletoe.')):
+            continue
+        for a, v in list(vars(mod).items()):
+            if v is cls:
+                found.add(m + '.' + a)
+    found.discard(canon)
+    return [canon] + sorted(found)
+
+
 # ---------------------------------------------------------------------------------------------
 # simulated devices
 
@@ -286,6 +303,9 @@ def build_argv(rid, files, knobs):
     if rid == 'Html' and knobs.get('omit_r'):
         return dashes + files
     x = dotted(rid)
+    if knobs.get('r_spelling'):
+        sp = spellings(rid)
+        x = sp[knobs['r_spelling'] % len(sp)]
     shape = knobs.get('argv_shape') or ARGV_SHAPES[0]
     if dashes and shape == 'files -r X':
         shape = ARGV_SHAPES[0]
